@@ -1,23 +1,23 @@
 SPECIFICATION Spec
 CONSTANTS
-  Stacks <- StacksAll
-  Outcomes <- Out13
-  TagOps <- TagOpsAll
-  Times = {"1", "2", "none"}
-  MaxCalls = 24
-  MaxTests = 4
+  Stacks <- StTop
+  Outcomes <- Out3
+  TagOps <- TagOps2
+  Times = {"1", "2"}
+  MaxCalls = 12
+  MaxTests = 2
   MaxRuns = 2
-  MaxTagOps = 5
-  MaxTimes = 4
+  MaxTagOps = 0
+  MaxTimes = 0
   MaxIds = 9
-  AllowStop = TRUE
+  AllowStop = FALSE
   AllowSetFF = FALSE
   AllowSkipNoStart = FALSE
-  AllowDone = TRUE
-  AllowProgress = TRUE
+  AllowDone = FALSE
+  AllowProgress = FALSE
   PreFF = {FALSE, TRUE}
   Coded = {}
-  SubErrs = {}
+  SubErrs = {"failure", "error", "none"}
   DetIds = {"fresh"}
 CONSTRAINT ExportC
 INVARIANT Verdict
